@@ -197,6 +197,67 @@ class C03(Prop):
                 fails.append({"case": {"kind": "eq:data-built", "index": i, "value": v, "value2": v2},
                               "impl": {"a==b": a == b, "a==c": a == c, "a==d": a == d},
                               "reason": "data-built frames: equality is not structural"})
+        # device-available / program-version responses built from data objects: two frames whose data differ in exactly ONE
+        # field of the network configuration / version block never compare equal; equal data compare equal
+        from harness.c09 import net_to_params
+        from pyplumio.frames.responses import DeviceAvailableResponse, ProgramVersionResponse
+        from pyplumio.structures.network_info import NetworkInfo
+        from pyplumio.structures.program_version import VersionInfo
+
+        def ni_of(net):
+            eth, wlan = net_to_params(net)
+            return NetworkInfo(eth=eth, wlan=wlan, server_status=bool(net[7]))
+
+        def vi_of(v):
+            return VersionInfo(software="%d.%d.%d" % (v[4], v[5], v[6]), struct_tag=bytes(v[0]), struct_version=v[1],
+                               device_id=bytes(v[2]), processor_signature=bytes(v[3]))
+        for _ in range(60 if tier == "quick" else 1000):
+            net = [[rng.randrange(256) for _ in range(4)] for _ in range(3)] + [rng.random() < 0.5] + \
+                  [[rng.randrange(256) for _ in range(4)] for _ in range(3)] + \
+                  [rng.random() < 0.5, rng.randrange(5), rng.randrange(101), rng.random() < 0.5, list(rng.choice(["", "home", "x" * 32]).encode())]
+            for field in range(12):
+                other = [list(x) if isinstance(x, list) else x for x in net]
+                if field in (0, 1, 2, 4, 5, 6):
+                    other[field][rng.randrange(4)] ^= rng.randrange(1, 256)
+                elif field in (3, 7, 10):
+                    other[field] = not other[field]
+                elif field == 8:
+                    other[8] = (other[8] + rng.randrange(1, 5)) % 5
+                elif field == 9:
+                    other[9] = (other[9] + rng.randrange(1, 100)) % 101
+                else:
+                    other[11] = other[11] + [0x41]
+                try:
+                    a = DeviceAvailableResponse(data={"network": ni_of(net)})
+                    a2 = DeviceAvailableResponse(data={"network": ni_of(net)})
+                    b = DeviceAvailableResponse(data={"network": ni_of(other)})
+                    self._data_pairs += 2
+                    res = {"same": bool(a == a2), "differ": bool(a == b), "ne": bool(a != b)}
+                except Exception as e:  # noqa: BLE001
+                    res = {"exception": type(e).__name__}
+                if res != {"same": True, "differ": False, "ne": True}:
+                    fails.append({"case": {"kind": "eq:data-built-netinfo", "net": net, "other": other, "field": field}, "impl": res,
+                                  "reason": "device-available responses built from data: equality is not structural"})
+            v = [[rng.randrange(256) for _ in range(2)], rng.randrange(256), [rng.randrange(256) for _ in range(2)],
+                 [rng.randrange(256) for _ in range(3)], rng.randrange(65536), rng.randrange(65536), rng.randrange(65536)]
+            for field in range(7):
+                w = [list(x) if isinstance(x, list) else x for x in v]
+                if field in (0, 2, 3):
+                    w[field][0] ^= rng.randrange(1, 256)
+                elif field == 1:
+                    w[1] = (w[1] + rng.randrange(1, 256)) % 256
+                else:
+                    w[field] = (w[field] + rng.randrange(1, 65536)) % 65536
+                try:
+                    a = ProgramVersionResponse(data={"version": vi_of(v)})
+                    b = ProgramVersionResponse(data={"version": vi_of(w)})
+                    self._data_pairs += 1
+                    res = {"differ": bool(a == b), "ne": bool(a != b)}
+                except Exception as e:  # noqa: BLE001
+                    res = {"exception": type(e).__name__}
+                if res != {"differ": False, "ne": True}:
+                    fails.append({"case": {"kind": "eq:data-built-version", "ver": v, "other": w, "field": field}, "impl": res,
+                                  "reason": "program-version responses built from data: equality is not structural"})
         return fails
 
     def extra_coverage(self):
